@@ -267,11 +267,21 @@ func runRolloutWithCut(scn *Scn, f Factory, edits []int, midSyncs int, ogStyle i
 	phase := -1 // index among rollout-phase syncs
 	fair := func(counted bool) (*SyncTrace, error) {
 		env.MakeHealthy()
-		env.W.SyncAll()
 		if counted {
 			phase++
 		}
 		active := counted && plan.Sync == phase
+		if active && plan.Kind == "stale-revisions" {
+			// the ControllerRevision informer is a stream of its own: this sync runs before it has
+			// delivered what the previous sync wrote (every other cache is current)
+			for _, r := range env.W.ResourceNames() {
+				if r != "controllerrevisions" {
+					env.W.SyncCache(r)
+				}
+			}
+		} else {
+			env.W.SyncAll()
+		}
 		count := 0
 		crashed := false
 		if active && strings.HasPrefix(plan.Kind, "hook-") {
@@ -537,7 +547,7 @@ func PropC09(c *vs.Case, f Factory, o RolloutOpts) error {
 	if len(cuts) == 0 {
 		return nil
 	}
-	kinds := []string{"crash", "err500", "lost-response", "conflict", "hook-old", "hook-latest"}
+	kinds := []string{"crash", "err500", "lost-response", "conflict", "hook-old", "hook-latest", "stale-revisions"}
 	ct := cuts[c.Int(len(cuts))]
 	kind := kinds[c.Int(len(kinds))]
 	if orphaned && c.Bool() {
